@@ -172,6 +172,65 @@ func init() {
 			return []Val{&StoreHandleV{Ghost: "tibc", Prefix: args[2].(*Term), Kind: "client"}}, nil
 		})
 
+	reg(ck+"::(Keeper).RelayerStore", "the relayer registry's prefix store: key k is stored at \"relayers\" ++ k of the tibc store",
+		func(e *Engine, st *State, fr *Frame, args []Val, fn *ssa.Function, c *ssa.CallCommon) ([]Val, []*State) {
+			return []Val{&StoreHandleV{Ghost: "tibc", Prefix: mk(SStr, e.C.StrLit("relayers")), Kind: "relayers"}}, nil
+		})
+	// ---- codec (A-PROTO): marshal is an injective uninterpreted encoding per message type, unmarshal its inverse
+	marshal := func(e *Engine, st *State, fr *Frame, args []Val, fn *ssa.Function, c *ssa.CallCommon) ([]Val, []*State) {
+		return []Val{e.pbEncode(st, args[1])}, nil
+	}
+	unmarshal := func(e *Engine, st *State, fr *Frame, args []Val, fn *ssa.Function, c *ssa.CallCommon) ([]Val, []*State) {
+		e.pbDecodeInto(st, e.toBytesTerm(st, args[1]), args[2])
+		return nil, nil
+	}
+	codecI := "github.com/cosmos/cosmos-sdk/codec.BinaryCodec"
+	reg("iface:"+codecI+".MustMarshal", "result == pbenc_<T>(fields...) (non-nil); pbdec field i of it is field i (A-PROTO)", marshal)
+	reg("iface:"+codecI+".MustUnmarshal", "*ptr's fields become pbdec_<i>(bz) (A-PROTO); panics on malformed input are not modelled", unmarshal)
+	reg("iface:github.com/cosmos/cosmos-sdk/codec.Codec.MustMarshal", "as BinaryCodec.MustMarshal", marshal)
+	reg("iface:github.com/cosmos/cosmos-sdk/codec.Codec.MustUnmarshal", "as BinaryCodec.MustUnmarshal", unmarshal)
+	reg("regexp::MatchString", "matched == re_match(pattern, s) (uninterpreted), err == nil for a constant pattern",
+		func(e *Engine, st *State, fr *Frame, args []Val, fn *ssa.Function, c *ssa.CallCommon) ([]Val, []*State) {
+			e.C.DeclareFun("re_match", []Sort{SStr, SStr}, SBool)
+			return []Val{mkBool(fmt.Sprintf("(re_match %s %s)", args[0].(*Term).T, args[1].(*Term).T)), mk(SErr, e.C.Fresh("re_err", SErr))}, nil
+		})
+	reg("encoding/json::Marshal", "result == json_enc(v) (uninterpreted, non-nil on success); err unconstrained",
+		func(e *Engine, st *State, fr *Frame, args []Val, fn *ssa.Function, c *ssa.CallCommon) ([]Val, []*State) {
+			e.C.DeclareFun("json_enc", []Sort{"Obj"}, SStr)
+			var o *Term
+			switch x := args[0].(type) {
+			case *IfaceV:
+				if t, ok := x.V.(*Term); ok && t.S == "Obj" {
+					o = t
+				}
+			case *Term:
+				if x.S == "Obj" {
+					o = x
+				}
+			}
+			if o == nil {
+				o = mk("Obj", e.C.Fresh("json_arg", "Obj"))
+			}
+			return []Val{mk(SBytes, "(mkB false (json_enc "+o.T+"))"), mk(SErr, e.C.Fresh("json_err", SErr))}, nil
+		})
+	reg("encoding/json::Unmarshal", "*ptr == json_dec(data) (uninterpreted; json_dec(json_enc(v)) == v); err unconstrained",
+		func(e *Engine, st *State, fr *Frame, args []Val, fn *ssa.Function, c *ssa.CallCommon) ([]Val, []*State) {
+			e.C.DeclareFun("json_dec", []Sort{SStr}, "Obj")
+			b := e.toBytesTerm(st, args[0])
+			target := args[1]
+			if iv, ok := target.(*IfaceV); ok {
+				target = iv.V
+			}
+			if p, ok := target.(*PtrV); ok && p.C != nil {
+				o := mk("Obj", "(json_dec "+bstrOf(b.T)+")")
+				e.store(st, p, o)
+			}
+			return []Val{mk(SErr, e.C.Fresh("json_err", SErr))}, nil
+		})
+	reg("encoding/hex::EncodeToString", "uninterpreted hex_enc(b)", func(e *Engine, st *State, fr *Frame, args []Val, fn *ssa.Function, c *ssa.CallCommon) ([]Val, []*State) {
+		e.C.DeclareFun("hex_enc", []Sort{SStr}, SStr)
+		return []Val{mk(SStr, "(hex_enc "+bstrOf(e.toBytesTerm(st, args[0]).T)+")")}, nil
+	})
 	pt := repoModule + "/modules/tibc/core/04-packet/types"
 	reg(pt+"::(Acknowledgement).GetBytes", "proto encoding of the acknowledgement (A-PROTO): errAckBytes(text) for an error response, resAckBytes(result) for a result response; never empty when a response is set; the two families are disjoint",
 		func(e *Engine, st *State, fr *Frame, args []Val, fn *ssa.Function, c *ssa.CallCommon) ([]Val, []*State) {
@@ -402,6 +461,9 @@ func (e *Engine) sprintf(st *State, fr *Frame, args []Val, c *ssa.CallCommon) Va
 
 func (e *Engine) storeKeyTerm(st *State, h *StoreHandleV, k Val) *Term {
 	b := e.toBytesTerm(st, k)
+	if h.Kind == "relayers" {
+		return mk(SKey, "(relayers "+bstrOf(b.T)+")")
+	}
 	if h.Prefix != nil || h.Opaque != nil {
 		pfx := h.Prefix
 		if pfx == nil {
@@ -470,8 +532,127 @@ func (e *Engine) freshSpecial(st *State, name string, t types.Type) Val {
 		return &StoreHandleV{Ghost: "tibc", Prefix: pfx, Kind: "client"}
 	case "time.Time":
 		return &Term{S: SInt, T: e.C.Fresh(name+"_ns", SInt)}
-	case "time.Duration":
-		return &Term{S: SInt, T: e.C.Fresh(name+"_dur", SInt)}
 	}
 	return nil
+}
+
+// pbEncode / pbDecodeInto: A-PROTO. A message type T has an uninterpreted encoder pbenc_T over its (flattened)
+// fields and per-field decoders pbdec_T_i with pbdec_T_i(pbenc_T(f...)) == f_i (ground instances are added).
+func (e *Engine) pbMessage(st *State, v Val) (*StructV, string) {
+	if iv, ok := v.(*IfaceV); ok && iv.Dyn != nil {
+		v = iv.V
+	}
+	if p, ok := v.(*PtrV); ok && p.C != nil {
+		v = e.load(st, p, nil)
+	}
+	sv, ok := v.(*StructV)
+	if !ok {
+		unsupported("proto message %s", valString(v))
+	}
+	name := typeTag(sv.T)
+	return sv, name
+}
+
+func (e *Engine) pbFieldTerms(st *State, sv *StructV) []*Term {
+	var out []*Term
+	for _, f := range sv.F {
+		switch x := f.(type) {
+		case *Term:
+			out = append(out, x)
+		case *SliceV:
+			if isByteElem(x.ElemT) {
+				out = append(out, e.toBytesTerm(st, x))
+			} else if x.Nil {
+				e.C.DeclareFun("seq_nil", nil, "Obj")
+				out = append(out, mk("Obj", "seq_nil"))
+			} else {
+				out = append(out, mk("Obj", e.C.Fresh("seqval", "Obj")))
+			}
+		case *StructV:
+			out = append(out, e.pbFieldTerms(st, x)...)
+		default:
+			out = append(out, mk("Obj", e.C.Fresh("pbfield", "Obj")))
+		}
+	}
+	return out
+}
+
+func (e *Engine) pbEncode(st *State, msg Val) Val {
+	sv, name := e.pbMessage(st, msg)
+	fs := e.pbFieldTerms(st, sv)
+	var sorts []Sort
+	var as []string
+	for _, f := range fs {
+		sorts = append(sorts, f.S)
+		as = append(as, f.T)
+	}
+	fn := "pbenc_" + name
+	e.C.DeclareFun(fn, sorts, SStr)
+	t := fn
+	if len(as) > 0 {
+		t = "(" + fn + " " + strings.Join(as, " ") + ")"
+	}
+	for i, f := range fs {
+		d := fmt.Sprintf("pbdec_%s_%d", name, i)
+		e.C.DeclareFun(d, []Sort{SStr}, f.S)
+		if !strings.Contains(t, "|q_") {
+			st.assume(fmt.Sprintf("(= (%s %s) %s)", d, t, f.T))
+		}
+	}
+	return mk(SBytes, "(mkB false "+t+")")
+}
+
+func (e *Engine) pbDecodeInto(st *State, bz *Term, target Val) {
+	if iv, ok := target.(*IfaceV); ok && iv.Dyn != nil {
+		target = iv.V
+	}
+	p, ok := target.(*PtrV)
+	if !ok || p.C == nil {
+		unsupported("unmarshal into %s", valString(target))
+	}
+	sv, ok := e.load(st, p, nil).(*StructV)
+	if !ok {
+		unsupported("unmarshal into non-struct")
+	}
+	name := typeTag(sv.T)
+	idx := 0
+	var fill func(sv *StructV) *StructV
+	fill = func(sv *StructV) *StructV {
+		n := &StructV{T: sv.T}
+		stt := sv.T.Underlying().(*types.Struct)
+		for i := range sv.F {
+			ft := stt.Field(i).Type()
+			if inner, ok := sv.F[i].(*StructV); ok {
+				n.F = append(n.F, fill(inner))
+				continue
+			}
+			var s Sort
+			signed := false
+			switch {
+			case isByteSlice(ft):
+				s = SBytes
+			case isBasicString(ft):
+				s = SStr
+			default:
+				if bt, ok := ft.Underlying().(*types.Basic); ok && bt.Info()&types.IsInteger != 0 {
+					w, sg := intInfo(bt)
+					s, signed = BV(w), sg
+				} else if ok && bt.Info()&types.IsBoolean != 0 {
+					s = SBool
+				} else {
+					s = "Obj"
+				}
+			}
+			d := fmt.Sprintf("pbdec_%s_%d", name, idx)
+			idx++
+			e.C.DeclareFun(d, []Sort{SStr}, s)
+			t := &Term{S: s, T: fmt.Sprintf("(%s %s)", d, bstrOf(bz.T)), Signed: signed}
+			if s == "Obj" {
+				t.GoT = ft
+			}
+			n.F = append(n.F, t)
+		}
+		return n
+	}
+	e.store(st, p, fill(sv))
 }
